@@ -5,7 +5,7 @@ open PttVerif PttVerif.C09
 /-!
 ops (all byte strings in hex, `-` = empty):
   consts
-  reset  b:<name>:<index bytes> ...  u:<UserID array>:<uid>:<nickname>:<numposts> ...
+  reset  b:<name>:<index bytes> (B: = the same with a cold cached total) ...  u:<UserID array>:<uid>:<nickname>:<numposts> ...
   post   <board> <dirBoard> <userID> <flags> <ip> <from> <class> <title> <lines>
          flags ⊆ "raocn" or "-": r = may keep the announcement tag, a = anonymous board, o = open board (ALLPOST copy),
          c = credited, n = not permitted (the request is refused before anything is written)
@@ -60,6 +60,11 @@ def parseReset (toks : List String) : Option DSt :=
         let ix ← parseHex ix
         if (findBoard s.boards n).isSome then none
         else pure { d with st := { s with boards := s.boards ++ [{ name := n, dir := ⟨true, ix⟩, files := [], total := ix.length / dirSz }] } }
+    | ["B", n, ix] => do          -- the same board with a COLD cached total (0: not counted since the last reload)
+        let n ← parseHex n
+        let ix ← parseHex ix
+        if (findBoard s.boards n).isSome then none
+        else pure { d with st := { s with boards := s.boards ++ [{ name := n, dir := ⟨true, ix⟩, files := [], total := 0 }] } }
     | ["u", id, uid, nick, np] => do
         let id ← parseHex id
         let uid ← parseNat? uid
@@ -90,7 +95,7 @@ def showNp (s : St) (id : List Nat) : String :=
   | none => "-"
 
 def stateLine (s : St) (q : Req) : String :=
-  s!"dir={showDir s q.dirBoard} n={showCount s q.dirBoard} total={showTotal s q.board} dtotal={showTotal s q.dirBoard} np={showNp s q.userID} x={showCount s ALLPOST} loglen={s.postLog.bytes.length}"
+  s!"dir={showDir s q.dirBoard} n={showCount s q.dirBoard} total={showTotal s q.board} dtotal={showTotal s q.dirBoard} np={showNp s q.userID} x={showCount s ALLPOST} xt={showTotal s ALLPOST} loglen={s.postLog.bytes.length}"
 
 def b2s (b : Bool) : String := if b then "1" else "0"
 
